@@ -128,8 +128,13 @@ func (w *Foreign) Header(t *tape.Tape) {
 	w.mark(MarkFraming, 0)
 	w.Natural(uint32(nChunks), naturalWidth(t, uint32(nChunks)))
 	mids := []int{0, 1}
-	if t.Chance(1, 8) {
-		mids = []int{1, 0}
+	switch t.Pick(12, 2, 1, 1) {
+	case 1:
+		mids = []int{1, 0} // out of order
+	case 2:
+		mids = []int{1, 1} // the same chunk twice (the format forbids it; decoders tend to accept it)
+	case 3:
+		mids = []int{0, 0}
 	}
 	if nChunks == 1 && t.Bool() {
 		mids = []int{1}
